@@ -114,6 +114,15 @@ def interpChoice (value trimmed : Bytes) : String → Option Bytes
   | "trimmed" => some trimmed
   | _ => none
 
+/-- T1: the atoms of the translated function are the calls the model's parameters stand for -
+validity of the *whole* value, the lengths of the value and of `bytes.TrimSpace` of the whole
+value - not of a prefix, a copy or a differently trimmed version. -/
+theorem fact_checkPutText_atoms :
+    Facts.gen_checkPutText_atoms =
+      [("lenTrimmed", "len(trimmed)"), ("lenValue", "len(value)"), ("valid", "utf8.Valid(value)")] ∧
+    Facts.gen_checkPutText_locals = [("trimmed", "bytes.TrimSpace(value)")] := by
+  decide
+
 /-- T1, translated: `checkPutText` of cmd/setec as regenerated from the source on every run (its
 if-chain turned into a Lean expression over the atoms `utf8.Valid(value)`, the two lengths and
 the two flags) is the model's decision function. -/
